@@ -177,7 +177,7 @@ class StreamingHandler(AsyncCallbackHandler, AsyncIterator):
                         return
 
             if self.pipe_to:
-                asyncio.create_task(self.pipe_to.push_chunk(chunk))
+                await self.pipe_to.push_chunk(chunk)
                 if chunk is None or chunk == "":
                     self.streaming_finished_event.set()
                     self.top_k_nonempty_lines_event.set()
